@@ -297,6 +297,36 @@ pub enum SentKind {
     Synced,
     Unlinked,
     Event(Ev),
+    /// A well-formed `event` envelope whose body is not an event of a lane of this kind (shown lossily).
+    BadEvent(String),
+    /// Bytes that are not a response envelope (an undecodable frame, or a strict prefix of a frame
+    /// after which the lane closes its writer).
+    BadEnvelope(BadEnv),
+}
+
+/// The ways in which the lane model corrupts its output at the level of envelopes.
+#[derive(Clone, Copy, Debug, PartialEq, Eq, Hash)]
+pub enum BadEnv {
+    /// A frame whose tag is one of the request tags (`command`).
+    RequestTag,
+    /// A `linked` frame that announces a body.
+    LinkedWithBody,
+    /// An `event` frame whose node name is not UTF-8.
+    NonUtf8Node,
+    /// The first `per mille` of an `event` frame (at least one byte, never the whole frame), then the
+    /// lane closes its writer.
+    Truncated(u64),
+}
+
+impl BadEnv {
+    pub fn name(self) -> &'static str {
+        match self {
+            BadEnv::RequestTag => "request-tag",
+            BadEnv::LinkedWithBody => "linked-with-body",
+            BadEnv::NonUtf8Node => "non-utf8-node",
+            BadEnv::Truncated(_) => "truncated-then-closed",
+        }
+    }
 }
 
 #[derive(Clone, Debug)]
@@ -306,11 +336,20 @@ pub struct Sent {
     /// Ticket drawn after the whole frame was accepted by the channel.
     pub t1: Option<u64>,
     pub kind: SentKind,
+    /// Length of the frame on the socket.
+    pub bytes: usize,
 }
 
 pub enum LaneOp {
     /// A state change of the lane that is not caused by one of our consumers.
     Apply(Ev),
+    /// The same, with that many bytes of trailing white space in the body of the event (so that a few
+    /// events fill the 8 KiB that a framed writer buffers before it insists on flushing).
+    ApplyPadded(Ev, usize),
+    /// An `event` envelope with this body, which is not an event of the lane's kind. No state change.
+    BadEvent(Vec<u8>),
+    /// Bytes that are not an envelope; the lane sends nothing afterwards (nothing would be understood).
+    BadEnvelope(BadEnv),
     Unlinked,
     /// Drop both halves of the socket.
     Close,
@@ -389,7 +428,15 @@ struct LaneWriter {
     log: SharedLane,
     id: Uuid,
     failed: bool,
+    /// Trailing white space for the body of the next event.
+    pad: usize,
+    /// Body of the next `SentKind::BadEvent`.
+    raw_body: Vec<u8>,
 }
+
+/// Offset of the tag / body-length word in an envelope (after the 16-byte id and the two name lengths).
+const TAG_WORD: usize = 24;
+const ENVELOPE_HEADER: usize = 32;
 
 impl LaneWriter {
     async fn send(&mut self, kind: SentKind) {
@@ -399,24 +446,43 @@ impl LaneWriter {
         self.gate.acquire().await;
         let Some(writer) = self.writer.as_mut() else { return };
         let path = RelativeAddress::new(NODE, LANE);
-        let text;
+        let mut text;
         let msg: ResponseMessage<&str, &[u8], &[u8]> = match &kind {
-            SentKind::Linked => ResponseMessage::linked(self.id, path),
+            SentKind::Linked | SentKind::BadEnvelope(BadEnv::LinkedWithBody) => ResponseMessage::linked(self.id, path),
             SentKind::Synced => ResponseMessage::synced(self.id, path),
             SentKind::Unlinked => ResponseMessage::unlinked(self.id, path, None),
             SentKind::Event(ev) => {
                 text = ev.text();
+                text.extend(std::iter::repeat(' ').take(std::mem::take(&mut self.pad)));
                 ResponseMessage::event(self.id, path, text.as_bytes())
             }
+            SentKind::BadEvent(_) => ResponseMessage::event(self.id, path, self.raw_body.as_slice()),
+            SentKind::BadEnvelope(_) => ResponseMessage::event(self.id, path, b"@update(key:900) 1".as_slice()),
         };
         let mut buf = BytesMut::new();
         if RawResponseMessageEncoder.encode(&msg, &mut buf).is_err() {
             self.failed = true;
             return;
         }
+        let mut close_after = false;
+        if let SentKind::BadEnvelope(how) = &kind {
+            // A well-formed frame is damaged in one place (layout: swimos_messages::protocol).
+            match how {
+                BadEnv::RequestTag => buf[TAG_WORD] = (buf[TAG_WORD] & 0x1f) | (0b011 << 5),
+                BadEnv::LinkedWithBody => buf[TAG_WORD + 7] = 5,
+                BadEnv::NonUtf8Node => buf[ENVELOPE_HEADER] = 0xff,
+                BadEnv::Truncated(per_mille) => {
+                    let n = ((buf.len() as u64 * per_mille / 1000) as usize).clamp(1, buf.len() - 1);
+                    buf.truncate(n);
+                    close_after = true;
+                }
+            }
+            // nothing the lane could send afterwards would be understood
+            self.failed = true;
+        }
         let idx = {
             let mut g = self.log.lock();
-            g.sent.push(Sent { t0: ticket(), t1: None, kind });
+            g.sent.push(Sent { t0: ticket(), t1: None, kind, bytes: buf.len() });
             g.sent.len() - 1
         };
         match writer.write_all(&buf).await {
@@ -425,6 +491,9 @@ impl LaneWriter {
                 self.failed = true;
                 self.log.lock().write_failed = Some(ticket());
             }
+        }
+        if close_after && self.writer.take().is_some() {
+            self.log.lock().writer_closed = Some(ticket());
         }
     }
 }
@@ -444,7 +513,7 @@ pub async fn lane_task(
 ) {
     // `None` once the lane dropped its reader (fault step).
     let mut framed = Some(FramedRead::new(reader, RawRequestMessageDecoder));
-    let mut w = LaneWriter { writer: Some(writer), gate, log: log.clone(), id: Uuid::from_u128(0xD1), failed: false };
+    let mut w = LaneWriter { writer: Some(writer), gate, log: log.clone(), id: Uuid::from_u128(0xD1), failed: false, pad: 0, raw_body: vec![] };
     let mut state = init;
     let mut reading = true;
     // A lane only sends events down a link that exists: before the link request arrived, scripted
@@ -477,6 +546,32 @@ pub async fn lane_task(
                 log.lock().hist.push((ticket(), state.clone()));
                 if linked {
                     w.send(SentKind::Event(ev)).await;
+                }
+                let mut g = log.lock();
+                g.pending_ops = g.pending_ops.saturating_sub(1);
+            }
+            Next::Op(Some(LaneOp::ApplyPadded(ev, pad))) => {
+                state.apply(&ev);
+                log.lock().hist.push((ticket(), state.clone()));
+                if linked {
+                    w.pad = pad;
+                    w.send(SentKind::Event(ev)).await;
+                }
+                let mut g = log.lock();
+                g.pending_ops = g.pending_ops.saturating_sub(1);
+            }
+            Next::Op(Some(LaneOp::BadEvent(body))) => {
+                if linked {
+                    let shown = String::from_utf8_lossy(&body).into_owned();
+                    w.raw_body = body;
+                    w.send(SentKind::BadEvent(shown)).await;
+                }
+                let mut g = log.lock();
+                g.pending_ops = g.pending_ops.saturating_sub(1);
+            }
+            Next::Op(Some(LaneOp::BadEnvelope(how))) => {
+                if linked {
+                    w.send(SentKind::BadEnvelope(how)).await;
                 }
                 let mut g = log.lock();
                 g.pending_ops = g.pending_ops.saturating_sub(1);
